@@ -103,6 +103,9 @@ fn main() {
             if let Some(p) = a.get("coding-export") {
                 d_lzma::replay_coding_export(p, &prop, seed, a.num("limit", 20000) as usize, &mut rep);
             }
+            if let Some(p) = a.get("header-export") {
+                d_lzma::replay_header_export(p, &prop, seed, &mut rep);
+            }
             let om = a.num("options-matrix", 0) as usize;
             if om > 0 {
                 d_lzma::options_matrix(&prop, seed, om, &mut rep);
